@@ -36,8 +36,7 @@ def units(tier):
     U("entryexit", "h_entryexit", [N("entryexit")], "findEntryAndExitPoints: false for empty boxes; frame = entry, exit", [ALIASES["entryexit"]],
       backend="sat", mode="ABS", defines=["CXX2C_ABS_ARITH"])
     U("lemma.wrapper", "h_lemma_wrapper", clause="intersects(box, ray) is the boolean of intersects(box, ray, ip)", fns=[ALIASES["intersects"], ALIASES["intersects_ip"]])
-    U("lemma.ip_in_box", "h_lemma_ip_in_box", clause="when true, ip lies in the closed box (all finite boxes, origins, directions)", fns=[ALIASES["intersects_ip"]], timeout=1500)
-    U("lemma.entryexit_in_box", "h_lemma_entryexit_in_box", clause="when true, entry and exit lie in the closed box", fns=[ALIASES["entryexit"]], timeout=1500)
+    # lemma.ip_in_box / lemma.entryexit_in_box (reported points lie in the closed box): cvc5 exceeds 25 min on the IEEE formula - not claimed
     return us
 
 
@@ -46,6 +45,7 @@ def extra_coverage(units, tier):
 
 
 NOT_COVERED = [
+    "'every reported point lies in the box': attempted (harnesses h_lemma_ip_in_box / h_lemma_entryexit_in_box kept), cvc5 time-out at 25 min; needs NaN-freedom of the clamped quotients, so mode ABS cannot decide it",
     "'true exactly when some pos + t*dir, t >= 0, lies in the box': real-number geometry against rounded quotients - beyond the installed back ends",
     "points on the surface / on the ray to within rounding; per-axis mirror symmetry of the twelve near-identical blocks",
 ]
